@@ -75,3 +75,73 @@ def random_lens(rng, n_elements=None, finite=None, vignetting=False, apertures=F
     except Exception:
         pass
     return lens
+
+
+# ---- edit-then-ask on whole lenses (bounded): an analysis of an edited lens equals the analysis of a lens built with the edits ----
+def _rng_from(state):
+    r = random.Random()
+    r.setstate(state)
+    return r
+
+
+def edit(lens, rng):
+    """a few public-API edits, the same for every lens built from the same state"""
+    sg = lens.surface_group
+    n = sg.num_surfaces
+    k = rng.randrange(1, n - 1)
+    R = float(sg.radii[k])
+    if math.isfinite(R):
+        lens.set_radius(R * rng.uniform(1.05, 1.2), k)
+    lens.set_conic(rng.uniform(-0.5, 0.3), rng.randrange(1, n - 1))
+    j = rng.randrange(1, n - 2)
+    lens.set_thickness(float(sg.get_thickness(j)[0] if hasattr(sg.get_thickness(j), '__len__') else sg.get_thickness(j)) + rng.uniform(0.2, 1.0), j)
+    lens.set_index(rng.uniform(1.45, 1.8), 1)
+    lens.update_paraxial() if hasattr(lens, 'update_paraxial') else None
+
+
+def requery_custom(measure, clause, n_quick=3, n_thorough=20, lens_kw=None):
+    """custom contract body: measure(lens) -> dict name -> ndarray.  Lens A is measured, edited, measured again; lens B (identical
+    construction, never measured before) gets the same edits and is measured once: the two must agree bit for bit (nan = nan)."""
+    import time
+    import numpy as np
+
+    def run(ct, tier, seed):
+        import warnings
+        warnings.simplefilter('ignore')
+        np.seterr(all='ignore')
+        t0 = time.time()
+        rng = random.Random(seed * 17 + 3)
+        clauses, fails, cases, used = {}, [], 0, []
+        c_ = clauses.setdefault(clause, {'paths': 0, 'proved': 0, 'backends': {}, 'failed': [], 'seconds': 0.0, 'bounded': True})
+        for i in range(n_quick if tier == 'quick' else n_thorough):
+            st = rng.getstate()
+            est = random.Random(seed * 31 + i).getstate()
+            try:
+                A = random_lens(_rng_from(st), **(lens_kw or {'finite': False}))
+                B = random_lens(_rng_from(st), **(lens_kw or {'finite': False}))
+                measure(A)
+                edit(A, _rng_from(est))
+                edit(B, _rng_from(est))
+                ma, mb = measure(A), measure(B)
+            except Exception:
+                continue
+            cases += 1
+            used.append('random#%d' % i)
+            for name in sorted(set(ma) | set(mb)):
+                c_['paths'] += 1
+                if name not in ma or name not in mb:
+                    ok = False
+                else:
+                    a_, b_ = np.asarray(ma[name], dtype=float), np.asarray(mb[name], dtype=float)
+                    ok = a_.shape == b_.shape and bool(np.allclose(a_, b_, rtol=0, atol=0, equal_nan=True))
+                if ok:
+                    c_['proved'] += 1
+                    c_['backends']['runtime'] = c_['backends'].get('runtime', 0) + 1
+                else:
+                    fails.append({'clause': clause, 'draws': {'lens': 'random#%d' % i, 'quantity': name},
+                                  'note': '%s differs between the edited lens and a lens built with the edits' % name})
+        return {'contract': ct.name, 'functions': ct.functions, 'props': ct.props,
+                'symbolic': {'clauses': clauses, 'paths': 0, 'errors': [], 'solver_s': 0.0, 'samples': [], 'wd_assumed': [], 'assumed': []},
+                'numeric': {'accepted': cases, 'rejected': 0, 'failures': fails[:10], 'concolic_agree': 0, 'encoder_mismatches': [],
+                            'samples': [{'lenses': used[:8]}]}, 'wall_s': time.time() - t0}
+    return run
